@@ -131,6 +131,7 @@ func pkgVarLit(g *model.GenPkg, name string) *ast.CompositeLit {
 
 // RunCoh decides COH.* (C19).
 func RunCoh(c *core.Ctx) {
+	checkPlainPbGo(c)
 	s2 := source.GetS2(c)
 	// request descriptors by file name (S2)
 	reqByName := map[string]proto.Message{}
